@@ -8,10 +8,19 @@ RULE = ("correspondence: random operation sequences (pushes incl. forced/dry-mas
         "QueueTank/DecayQueueTank, Arc/PullArc/PushArc, QueueArc/DecayArc and AltQueueArc/DecayArcAlt between tank-backed or scripted (accept all / "
         "part / none, varying per call) neighbours, over random pollutant partitions; the whole observable state after "
         "every operation is compared exactly with the Gallina model. monitors: the C02 clauses evaluated directly on the "
-        "implementation after every operation of fresh sequences. non-trivial = distinct sequence of >= 3 operations")
+        "implementation after every operation of fresh sequences; whole models under Model.run: per arc and timestep entered = left + "
+        "change in transit + decayed, and nothing but decay between the pre-close-out observation and the next timestep. non-trivial = distinct sequence of >= 3 operations")
+
+def models(rep, thorough):
+    # the arcs of whole models (netgen, every third with travel-time / decaying / one-way arc classes) under Model.run:
+    # per arc and timestep entered = left + change in transit + decayed, and between the observation before close-out
+    # and the next timestep an arc only decays
+    import net_check
+    return net_check.monitor_models(rep, "C02", 600 if thorough else 90, 7 if thorough else 4)
+
 
 if __name__ == "__main__":
     sys.exit(comp_check.run("C02", "arc qarc altarc qtank".split(), RULE,
                             ["exact-rational semantics stands for float semantics up to rounding",
                              "offers are wet (non-negative, pollutant mass only with positive volume); no arc-level force for capacity clauses",
-                             "end nodes respect the reply contract (proved for tank-backed ends)"]))
+                             "end nodes respect the reply contract (proved for tank-backed ends)"], extra=models))
